@@ -185,9 +185,19 @@ type faultReader struct {
 	// Read, which the io.Reader contract allows and which files, pipes and TLS connections do) instead of
 	// by a separate (0, err) read
 	eager bool
+	// stutter: every other Read delivers nothing and no error ((0, nil), which the io.Reader contract
+	// discourages but allows) before the next one delivers
+	stutter bool
+	idle    bool
 }
 
 func (f *faultReader) Read(p []byte) (int, error) {
+	if f.stutter {
+		f.idle = !f.idle
+		if f.idle {
+			return 0, nil
+		}
+	}
 	if f.pos >= len(f.data) {
 		if f.resume != nil && f.failed {
 			n := copy(p, f.resume)
